@@ -549,6 +549,37 @@ func (s *Sim) opDumpLoad(op *Op) {
 	if s.Flags.Trace {
 		return
 	}
+	// The dump is a snapshot: activity in a world that loaded it must not change it.
+	// Disturb w2 (removals bump generations and relink the free list), then load the
+	// very same dump object into a third world and compare again.
+	disturbed := 0
+	for _, h := range handles {
+		if disturbed >= 3 {
+			break
+		}
+		if w2.Alive(h) {
+			w2.RemoveEntity(h)
+			disturbed++
+		}
+	}
+	for i := 0; i < 2; i++ {
+		w2.NewEntity()
+	}
+	w3 := ecs.NewWorld(abs(op.N)%3 + 1)
+	p, val = s.call(func() { w3.Unsafe().LoadEntities(&dump) })
+	if p {
+		s.violate("C17", "dump.load", "panic_second", false, "loading the same dump a second time panicked: %v", val)
+		return
+	}
+	s.C.Checks["dump.reload"]++
+	for _, h := range handles {
+		a, b := s.W.Alive(h), w3.Alive(h)
+		if a != b {
+			s.violate("C17", "dump.alive", "second_load", false, "handle %v: alive=%v in the source world, %v after loading the same dump again (another world that had loaded it removed entities in between)", h, a, b)
+			return
+		}
+	}
+	w2 = w3
 	// dump.next: consecutive creations return the same handles in both worlds.
 	// The creations in the source world are ordinary NewEntity ops of the history.
 	k := abs(op.N)%50 + 1
